@@ -370,12 +370,15 @@ func execC34(t *testing.T, scAny any, keepLog bool) *Outcome {
 		// timedClose runs Close and remembers when it returned and how long it took
 		timedClose := func(sd *c34Side) error {
 			t0 := s.Now()
+			wasAbrupt := sides[0].abrupt || sides[1].abrupt
 			cw0 := sd.cwDone
 			active0 := sd.cwActive
 			err := sd.conn.Close()
 			// every CloseWrite of this side that overlapped the call may have held the write side for its own 5 s guard
 			d := s.Now().Sub(t0) - time.Duration(active0+(sd.cwDone+sd.cwActive-cw0-active0))*5*time.Second
-			if d > sd.closeDur {
+			// (once something has gone wrong on the connection a Read may be busy sending a fatal alert to a peer that
+			// does not read, holding the write side until its deadline: only calls on an undisturbed connection count)
+			if d > sd.closeDur && !wasAbrupt {
 				sd.closeDur = d
 			}
 			if sd.closeRet.IsZero() {
@@ -688,6 +691,20 @@ func execC34(t *testing.T, scAny any, keepLog bool) *Outcome {
 				// racing with a Write, a HelloRequest or a killed transport all come with their own, legitimate, errors.)
 				first := func(sd *c34Side) bool { return !sd.abrupt || sd.abruptAt > rcv.readErrAt }
 				if rcv.readErr == nil || rcv.localClose || !first(rcv) || !first(snd) {
+					continue
+				}
+				// a sender that moves its write deadline while it has to answer KeyUpdate requests may cut its own reply
+				// record (the error of that internal write is swallowed by design): what follows cannot be read
+				sndWdl := false
+				for _, tk := range sc.Tasks {
+					for _, op := range tk.Ops {
+						if tk.Side == 1-side && (op.Op == "setdl" || op.Op == "setwdl") {
+							sndWdl = true
+						}
+					}
+				}
+				if sndWdl && sc.Reframe != 0 && !rcv.sticky {
+					o.count("probe.inconclusive_sender_moved_write_deadline_under_key_updates", 1)
 					continue
 				}
 				if rcv.sticky {
